@@ -80,6 +80,18 @@ def programs(tier, seed):
     )
     yield ("loop-two-independent", two, dict(ints, xa=0, yb=0, zb=0), False)
     yield ("loop-two-independent-rev", T.prog(list(reversed(two["nodes"]))), dict(ints, xa=0, yb=0, zb=0), False)
+    # two data-independent cycles steered by ONE gate (its control edges join them into one component of the full graph; the cycles
+    # of the input spec are those of the DATA graph): each cycle still needs its own seed
+    shared_gate = T.prog(
+        [
+            T.fn("la", ["xa"], ["xa"], behav={"py": "xa + 1"}),
+            T.fn("lb1", ["yb"], ["zb"], behav={"py": "yb + 1"}),
+            T.fn("lb2", ["zb"], ["yb"], behav={"py": "zb + 1"}),
+            T.route("gg", ["xa", "yb"], ["la", "lb1", "END"], behav={"py": "'la' if xa < 2 else ('lb1' if yb < 4 else END)"}),
+        ]
+    )
+    yield ("loop-two-cycles-one-gate", shared_gate, dict(ints, xa=0, yb=0, zb=0), False)
+    yield ("loop-two-cycles-one-gate-rev", T.prog(list(reversed(shared_gate["nodes"]))), dict(ints, xa=0, yb=0, zb=0), False)
     yield ("nested", T.nested_fanout(), e, True)
     yield ("nested2", T.nested_depth(2), e, True)
     inner = T.prog([T.fn("ib", ["x", "k"], ["y"], defaults={"k": ["dflt", "k"]}), T.fn("ic", ["y", "m"], ["z"])], name="inr", bind={"m": ["bound", "m"]})
